@@ -45,7 +45,14 @@ def scenario_var_collision(v0, v1):
     return [("prog", p0), ("act", call), ("prog", p1), ("act", call)]
 
 
+def scenario_var_edit(v0, v1):
+    """a tracked variable of a scalar type changes (bool / None are tracked since fix F18)"""
+    return scenario_var_collision(v0, v1)
+
+
 SCENARIOS = [
+    ("var-edit:bool-flag", lambda: scenario_var_edit(["bool", True], ["bool", False])),
+    ("var-edit:none-to-int", lambda: scenario_var_edit(["none"], i_(5))),
     ("var-edit-between-colliding-values:empty-str-vs-empty-list", lambda: scenario_var_collision(s_(""), ["list", []])),
     ("var-edit-between-colliding-values:int-vs-4byte-str", lambda: scenario_var_collision(i_(0x41424344), s_("ABCD"))),
     ("runtime-arg-edit:single-line", lambda: scenario_multiline("single", 0)),
@@ -65,15 +72,24 @@ def root_keep_arg():
     return dds.keep("/a", f, helper())
 def root_call_arg():
     return mid(helper())
+TUP = ({h}, 2)
+def reads_tuple():
+    return TUP
+def same_path_twice():
+    a = dds.keep("/same", f, 1)
+    b = dds.keep("/same", f, 2)
+    return (a, b)
 '''
 RAW_RUN = '''import dds, sys, json
 dds.accept_module("rawpk")
 dds.set_store("local", internal_dir=sys.argv[1] + "/i", data_dir=sys.argv[1] + "/d")
 import rawpk.m as m
 out = {{}}
-for name in ("root_keep_arg", "root_call_arg"):
+plain = {{"root_keep_arg": lambda: m.f(m.helper()), "root_call_arg": lambda: m.f(m.helper()), "reads_tuple": lambda: m.TUP,
+         "same_path_twice": lambda: (m.f(1), m.f(2))}}
+for name in ("root_keep_arg", "root_call_arg", "reads_tuple", "same_path_twice"):
     fn = getattr(m, name)
-    out[name] = [repr(dds.eval(fn)), repr({{"root_keep_arg": lambda: m.f(m.helper()), "root_call_arg": lambda: m.f(m.helper())}}[name]())]
+    out[name] = [repr(dds.keep("/out_" + name, fn)), repr(plain[name]())]
 print("@@" + json.dumps(out))
 '''
 
@@ -102,6 +118,16 @@ def run_raw(rep):
                 rep.violation("harness-error:c01raw", "raw scenario could not be run: " + out[-300:], {"out": out[-800:]}, no_input=True)
                 return
             outs.append(json.loads(line[-1][2:]))
+        rep.case("targeted:untracked-tuple-variable")
+        got, plain = outs[1]["reads_tuple"]
+        if got != plain:
+            rep.violation("stale:untracked-tuple-variable", f"after a module-level tuple read by a kept function changed, dds returns {got} but plain execution "
+                          f"gives {plain}", {"scenario": "reads_tuple", "module_v1": RAW_MODULE.format(h=1), "edit": "TUP = (2, 2)", "dds": got, "plain": plain})
+        rep.case("targeted:same-path-kept-twice")
+        got, plain = outs[0]["same_path_twice"]
+        if got != plain:
+            rep.violation("wrong:same-path-kept-twice", f"one function keeps the same path twice with different arguments: dds returns {got}, plain execution {plain}",
+                          {"scenario": "same_path_twice", "module": RAW_MODULE.format(h=1), "dds": got, "plain": plain})
         for name in ("root_keep_arg", "root_call_arg"):
             rep.case("targeted:inline-call-in-argument:" + name)
             got, plain = outs[1][name]
